@@ -298,9 +298,9 @@ int main(int argc, char **argv) {
         for (size_t mx = 1; mx <= 3; ++mx)
             for (int dm = 0; dm < 4; ++dm)
                 for (int hm = 0; hm < 3; ++hm) {
-                    /* quick: destructors none/both, spread hash.  thorough adds key-only / value-only destructors and, with
+                    /* quick: destructors none/both, spread hash (+ the colliding hash at max_items 2).  thorough adds key-only / value-only destructors and, with
                      * both destructors, the two collision hash modes (their slot layouts multiply the state count). */
-                    bool in_quick = (dm == 0 || dm == 3) && hm == 0;
+                    bool in_quick = ((dm == 0 || dm == 3) && hm == 0) || (dm == 3 && hm == 1 && mx == 2);
                     bool in_thorough = hm == 0 || dm == 3;
                     if (!in_thorough) continue;
                     g_policy = p;
